@@ -209,7 +209,7 @@ def ffsFiles (data : Bytes) (length : Nat) : Except Err Unit :=
     if extOff ≠ 0 ∧ length ≥ fvExtHeaderMin ∧ extOff < length - fvExtHeaderMin
     then extOff + fromLE (slice data (extOff + 16) 4) else headerLen)
   let lh := u64 (length + 2 ^ 64 - fileHeaderMin)
-  if ¬ dataOffset < lh then .ok () else
+  if ¬ dataOffset ≤ lh then .ok () else
   if data.length ≤ dataOffset then .error .parse else
   let d := data.drop dataOffset
   if d.length < fileHeaderMin then .error .parse else
